@@ -12,7 +12,8 @@ CLAIMED = {
             "Decides that the equations handed to the solver and the bookkeeping that reports their solution encode conservation with one consistent "
             "sign, adjacency and clock convention for every junction/tank/reservoir and every link set: balance rows, INLET/OUTLET filters, "
             "tank/reservoir demand recomputation, leak demand, DD/PDD demand copy, Demands/TimeSeries/Pattern.at formulas, sim_time+pattern_start and "
-            "demand multiplier at every call site in wntr.sim, parameter refresh before each solve.",
+            "demand multiplier at every call site in wntr.sim, parameter refresh before each solve; that the element loops of the balance builders "
+            "carry no partially assigned local from one node to the next.",
             "Does not decide that reported numbers satisfy the balance within tolerance (needs the solver; evaluator fidelity is C15). Pattern "
             "interpolation branch is not compared. Trusts sympy normal forms, sa/symx.py, sa/cfg.py.", "DESIGN.md §4 C01"),
     "C02": ("formula extraction: abstract interpretation of each constraint/parameter builder (AST -> sympy terms, all status/isinstance paths "
@@ -21,7 +22,7 @@ CLAIMED = {
             "Decides that the equations registered for every link type and status are the documented head-flow relations (closed => q = 0, "
             "orientation, H-W + minor loss odd and increasing, breakpoint C0/C1 agreement of smoothing polynomials with constants.py, pump and "
             "valve laws, coefficient formulas and their update triggers), that effective status is the documented function of user/internal "
-            "status and that check valves close on any reverse flow beyond tolerance. The internal status conditions decide on the state at the time of evaluation (differential, interpreted, 15 classes x 10 state changes); 3-point pump curves reproduce their points.",
+            "status and that check valves close on any reverse flow beyond tolerance. The internal status conditions decide on the state at the time of evaluation (differential, interpreted, 15 classes x 10 state changes); 3-point pump curves reproduce their points. The element loops of the head-loss and link-parameter builders carry no partially assigned local from one link to the next.",
             "Does not decide that the reported solution satisfies the equations (needs the Newton solver and the compiled evaluator, see C15/C16), "
             "the curve_fit quality of >=3-point pump curves, the monotonicity of the head-pump smoothing cubic (checked at run time by WNTR) or "
             "the complete PRV/PSV status automaton. Trusts sympy normal forms and sa/symx.py. ", "DESIGN.md §4 C02"),
@@ -48,7 +49,9 @@ CLAIMED = {
             "into an attribute map; extraction of comparison tables and reader keyword maps",
             "Decides that no step is saved, stored as accepted or advanced while a post-solve control still changed something, that the re-solve "
             "path updates the model, resets the reference point and increments the bounded trial counter, that control actions land on the "
-            "run-time field the status function reads and are reported under the public name, and that ABOVE/BELOW/relations mean what they say.",
+            "run-time field the status function reads and are reported under the public name, and that ABOVE/BELOW/relations mean what they say. "
+            "Additionally, bounded to one fixture model: the companion status control the simulator adds for every valve-setting / pump-speed action "
+            "has the condition object, class, priority and control type of its original (interpreted).",
             "Does not decide the invariant over actual trajectories nor equal-priority conflicts; effective status is C02's table; partial steps "
             "for tank-level thresholds are C06's rule R-C06-4.", "DESIGN.md §4 C05"),
     "C06": ("formula extraction of the Euler step of update_tank_heads (sympy, with interp as an uninterpreted function) and of get_volume / "
@@ -62,7 +65,8 @@ CLAIMED = {
             "identities (interpolation conditions) and breakpoint agreement as formulas in the exponent; override-rule path tables",
             "Decides that the registered pressure-demand function is the documented one, C0/C1-continuous across all four breakpoints for ANY "
             "exponent (spline identities + data = neighbours' value/derivative), with per-junction Pmin/Pnom/exponent overrides applied "
-            "consistently in the constraint and in the parameter builders and re-computed on change.",
+            "consistently in the constraint and in the parameter builders and re-computed on change; that the element loops of these builders carry no "
+            "partially assigned local from one junction to the next (each junction's curve is built from its own data).",
             "Does not decide the solver's result on the curve nor the monotonicity of the smoothing cubics between their end data. Trusts sympy.",
             "DESIGN.md §4 C07"),
     "C08": ("formula extraction of the three-branch leak constraint and its spline data; index-domain table (which element kinds each model "
@@ -70,7 +74,8 @@ CLAIMED = {
             "comparison of add_leak / remove_leak",
             "Decides that the registered leak law is Cd*A*sqrt(2*9.81*p) above the 0.1 mm band, s*p below zero pressure, smoothly joined; that "
             "the row exists only while leak_status is set; that no builder looks a tank up in a junction-only dictionary; that the start/end "
-            "controls are non-repeating pre-solve sim-time controls toggling the run-time switch; that remove_leak clears everything.",
+            "controls are non-repeating pre-solve sim-time controls toggling the run-time switch; that remove_leak clears everything; that the "
+            "element loops of the leak builders carry no partially assigned local from one node to the next.",
             "Leak term in the balance rows and tank demand is decided under C01. Timing itself is C04's mechanism. Not decided: solution values.",
             "DESIGN.md §4 C08"),
     "C09": ("encoding tables extracted from the AST (status -> graph entry, both directions, parallel-link recomputation, source set), CFG "
